@@ -96,7 +96,8 @@ def r1_layout(report, repo):
   if ups:
     raws = [c for c in core.calls_in(rd.node, attr='RawAdbMessage')]
     ok = len(raws) == 1 and len(raws[0].args) == 1 and isinstance(
-        raws[0].args[0], ast.Starred) and raws[0].args[0].value is ups[0]
+        raws[0].args[0], ast.Starred) and any(
+            x is ups[0] for x in lib.resolved(rd, raws[0].args[0].value))
     report.check(ok, rule, rd.qualname, 'unpack-into-raw', rd.node,
                  'the unpacked words fill RawAdbMessage positionally')
   init = repo.func(AM, 'AdbMessage.__init__')
@@ -243,9 +244,13 @@ def r3b_payload_paths(report, repo):
         else None
     tparam = lib.param_names(f.node)[2]
     if v['expired']:
+      a0 = tval.args[0] if isinstance(tval, ast.Call) and tval.args else None
+      if isinstance(a0, ast.Name):  # a named module-level number
+        a0 = repo.module(AM).constants.get(a0.id, a0)
       ok = isinstance(tval, ast.Call) and last_attr(tval) in (
-          'from_millis', 'from_seconds') and tval.args and isinstance(
-              tval.args[0], ast.Constant) and tval.args[0].value > 0
+          'from_millis', 'from_seconds') and isinstance(
+              a0, ast.Constant) and isinstance(a0.value, (int, float)) and \
+          a0.value > 0
       if not ok:
         return ('expired-row: when the timeout expired after the header, the '
                 'payload must still be sent with a fresh positive timeout')
